@@ -1,6 +1,11 @@
 (* C18: traversal and lookup *)
-open Model
+module List = Stdlib.List
+module String = Stdlib.String
+module Printf = Stdlib.Printf
+open BinNums
+open Datatypes
 open Driver
+open Nav
 
 let tval_of_sexp = function
   | A "none" -> TNone
